@@ -10,6 +10,7 @@ Not modelled (named): the reset of a collection while an updater is in flight; t
 uses the same `latest`/push/updater functions and is covered by correspondence only.
 -/
 import Orda.Proofs.SnapReplay
+import Orda.Proofs.RestPatchPublish
 namespace Orda.Props.C11
 open Orda Orda.SL Orda.SN
 
@@ -117,5 +118,50 @@ def cval : DState → Int
   | _ => -1
 example : exStore.snapshots.map (fun s => (s.sseq, cval s.snap)) = [(2, 5)] ∧
     exStore.userDocs.map (fun u => (u.ver, cval u.value)) = [(2, 5)] := by decide
+
+open Orda.RestP in
+/-- the USER-FACING document after a REST patch: once the snapshot job that the endpoint returned has run, the user-facing collection
+    holds EXACTLY ONE document for (collection, key); its version is the new end of the log, its value the target; a snapshot record
+    of that version with the same value exists (`RestP.Published`).  Named hypotheses beyond those of C19's stored-state theorem: the
+    collection is found by its number, no stored snapshot lies beyond the end of the log (follows from `SnapInv`:
+    `RestP.snap_bound_of_snapInv`; without it the job may SKIP and the user document stays stale — `RestP.updateSnapshot_skips`), the
+    target differs from the current value -/
+theorem rest_patch_publishes_target_to_user_collection
+    (st : Store) (colName key tmpDuid tmpCuid : String) (col : CollectionDoc) (d : DatatypeDoc) (r0 : Replica) (ver : Nat)
+    (hc : st.getCollection colName = some col) (hd : st.getDatatypeByKey col.num key = some d) (ht : d.typ = .document)
+    (hl : st.latest d = some (r0, ver))
+    (hinv : DP.DocInv { r0 with opId := { r0.opId with cuid := tmpCuid }, cp := ⟨ver, 0⟩ })
+    (hlog : LogInv st) (hend : ver = d.sseqEnd) (hpos : 0 < ver)
+    (hadmin : d.sub patchApiCuid false = none)
+    (hhist : ∀ d0, r0.state = .doc d0 → DLR.HistOK d0)
+    (hnum : st.collections.find? (fun c => c.num = col.num) = some col)
+    (hsnapb : ∀ s ∈ st.snapshots, s.duid = d.duid → s.sseq ≤ d.sseqEnd)
+    (tgt : List (String × JVal)) (hn : (JVal.obj tgt).hasNull = false) (hk : DC.JKeysND (.obj tgt))
+    (hchg : ∀ d0, r0.state = .doc d0 → d0.view.canon ≠ (JVal.obj tgt).canon) :
+    ∃ n, d.sseqEnd < n ∧
+      Published (runJobs (st.patchDocument colName key (.obj tgt) tmpDuid tmpCuid).1
+                         (st.patchDocument colName key (.obj tgt) tmpDuid tmpCuid).2.2.2) col key d.duid n (.obj tgt) :=
+  patch_then_snapshot_job_publishes_target st colName key tmpDuid tmpCuid col d r0 ver hc hd ht hl hinv hlog hend hpos hadmin hhist
+    hnum hsnapb tgt hn hk hchg
+
+open Orda.RestP in
+/-- … and for a document CREATED by the endpoint -/
+theorem rest_patch_create_publishes_target_to_user_collection
+    (st : Store) (colName key tmpDuid tmpCuid : String) (col : CollectionDoc)
+    (hc : st.getCollection colName = some col) (hd : st.getDatatypeByKey col.num key = none)
+    (hlog : LogInv st) (hfresh : st.getDatatype tmpDuid = none) (hsnap : ∀ s ∈ st.snapshots, s.duid ≠ tmpDuid)
+    (hnum : st.collections.find? (fun c => c.num = col.num) = some col)
+    (tgt : List (String × JVal)) (hn : (JVal.obj tgt).hasNull = false) (hk : DC.JKeysND (.obj tgt)) (hne : tgt ≠ []) :
+    ∃ n, 2 ≤ n ∧
+      Published (runJobs (st.patchDocument colName key (.obj tgt) tmpDuid tmpCuid).1
+                         (st.patchDocument colName key (.obj tgt) tmpDuid tmpCuid).2.2.2) col key tmpDuid n (.obj tgt) :=
+  patch_create_then_snapshot_job_publishes_target st colName key tmpDuid tmpCuid col hc hd hlog hfresh hsnap hnum tgt hn hk hne
+
+open Orda.RestP in
+/-- a snapshot job that finds a snapshot of the version reached writes NOTHING, neither snapshot nor user document -/
+theorem snapshot_job_skips_when_version_exists {st : Store} {duid colName : String} {doc : DatatypeDoc} {r : Replica} {n : Nat}
+    (hg : st.getDatatype duid = some doc) (hl : st.latest doc = some (r, n))
+    (hex : st.snapshots.any (fun s => s.duid = duid ∧ s.sseq = n) = true) : st.updateSnapshot duid colName = st :=
+  updateSnapshot_skips hg hl hex
 
 end Orda.Props.C11
